@@ -5,6 +5,7 @@ import (
 	"go/constant"
 	"go/token"
 	"go/types"
+	"sort"
 	"strconv"
 	"strings"
 
@@ -278,18 +279,52 @@ func (a *NilAnalysis) newGraph(fn *ssa.Function, at ssa.Instruction) *cgraph {
 			}
 		}
 	}
+	var lenTerms []string
 	for k := range f {
 		switch {
 		case strings.HasPrefix(k, "N|"):
 			p := strings.Split(k, "|")
 			c, _ := strconv.ParseInt(p[3], 10, 64)
 			g.le(p[1], p[2], c)
+			for _, t := range p[1:3] {
+				if strings.HasPrefix(t, "len(v:") && strings.HasSuffix(t, ")") {
+					lenTerms = append(lenTerms, t[len("len(v:"):len(t)-1])
+				}
+			}
 		case strings.HasPrefix(k, "NE|"):
 			p := strings.Split(k, "|")
 			g.ne[g.canon(p[1])+"|"+g.canon(p[2])+"|"+p[3]] = true
 		}
 	}
+	// a length that a fact mentions is defined by the way its slice was built (x[:n] has length n)
+	sort.Strings(lenTerms)
+	for _, name := range lenTerms {
+		if v := a.valueNamed(fn, name); v != nil {
+			if _, isSlice := v.(*ssa.Slice); isSlice {
+				g.defineLen(v, 6)
+			}
+		}
+	}
 	return g
+}
+
+func (a *NilAnalysis) valueNamed(fn *ssa.Function, name string) ssa.Value {
+	if a.byName == nil {
+		a.byName = map[*ssa.Function]map[string]ssa.Value{}
+	}
+	m, ok := a.byName[fn]
+	if !ok {
+		m = map[string]ssa.Value{}
+		for _, b := range fn.Blocks {
+			for _, ins := range b.Instrs {
+				if v, ok := ins.(ssa.Value); ok {
+					m[v.Name()] = v
+				}
+			}
+		}
+		a.byName[fn] = m
+	}
+	return m[name]
 }
 
 // define adds the definitional constraints of value v (and, recursively, of what it is made of).
@@ -490,6 +525,7 @@ func (g *cgraph) defineBinOp(x *ssa.BinOp, key string) {
 	case token.ADD:
 		// sum of two non-negative registers is non-negative (constants are handled by linear())
 		if _, ok := constInt(x.Y); !ok {
+			g.substrIndexEnd(x, key)
 			lo1, _, ok1 := g.boundsLo(g.termOf(x.X))
 			lo2, _, ok2 := g.boundsLo(g.termOf(x.Y))
 			if ok1 && ok2 {
